@@ -1,7 +1,16 @@
 HOOK_COMMITS = ["62c23309"]
+FIX_COMMITS = ["f30b07ca", "4730a169"]
 PENDING = "check not built yet (construction in progress, see DESIGN.md section 7); no claim is made"
 NOT_APPLICABLE = {("C%02d" % i): PENDING for i in range(1, 21)}
 CHECKS = {
+ "C05": dict(
+  technique="runtime monitoring under ASan+UBSan: cross-view oracle over recorded table cells, string, line accessors, file bytes and three-binding cell/out-of-range probes",
+  level="seeded selected-output shapes (0-4 blocks, option subsets, precision, USER_PUNCH with too few/many values, duplicate headings, inverse rows) x random per-number switches; every line of string/file is matched to a table row by heading-defined column mapping and each text cell must be a print-format rendering of the full-precision table value; C, C++, Value2 and Fortran-glue accessors compared cell by cell incl. out-of-range/unknown-number codes",
+  note="trusts the recorder; no mid-call block redefinition in generated inputs; 4 open known findings (see known_findings.json)"),
+ "C09": dict(
+  technique="runtime monitoring under ASan+UBSan: exhaustive switch-vector sweep, file bytes vs string vs line accessors per stream, cross-case table comparison",
+  level="all 128 combinations of output/log/dump file+string and error-file switches x 6 inputs (warnings, input error, KNOBS -logfile, DUMP -append, several selected-output numbers, advection), switches re-drawn before a second call, default/custom names; tables compared across all switch vectors of an input (1e-6)",
+  note="dump equality judged while both dump sinks were on for the whole history; 1 open known finding shared with C05; 2 defects repaired by fix: commits"),
  "C04": dict(
   technique="differential runtime monitoring: whole vs split/redelivered executions of the same binary, event logs compared offline",
   level="every cut set (<=6 boundaries) or a seeded sample of cut sets of the shipped examples and of generated multi-simulation inputs, each piece delivered through a random entry point; held = row histories, final DUMP and component list equal on all variants observed",
